@@ -238,13 +238,41 @@ int read_header(sqfs_istream_t *fp, tar_header_decoded_t *out)
 		case TAR_TYPE_PAX_GLOBAL:
 			if (read_number(hdr.size, sizeof(hdr.size), &pax_size))
 				goto fail;
-			if (pax_size % 512)
-				pax_size += 512 - (pax_size % 512);
-			ret = sqfs_istream_skip(fp, pax_size);
-			if (ret) {
-				sqfs_perror(fp->get_filename(fp),
-					    "skipping padding", ret);
+			/* The payload is ignored, but it has to be there: an
+			   input that ends inside of it is not the end of
+			   the archive (sqfs_istream_skip tolerates that). */
+			while (pax_size > 0) {
+				const sqfs_u8 *ptr;
+				size_t diff;
+
+				ret = fp->get_buffered_data(fp, &ptr, &diff,
+							    pax_size);
+				if (ret > 0)
+					goto fail_truncated;
+				if (ret < 0) {
+					sqfs_perror(fp->get_filename(fp),
+						    "skipping pax header",
+						    ret);
+					goto fail;
+				}
+
+				if ((sqfs_u64)diff > pax_size)
+					diff = pax_size;
+
+				fp->advance_buffer(fp, diff);
+				pax_size -= diff;
+			}
+
+			if (read_number(hdr.size, sizeof(hdr.size), &pax_size))
 				goto fail;
+			if (pax_size % 512) {
+				ret = sqfs_istream_skip(fp,
+							512 - (pax_size % 512));
+				if (ret) {
+					sqfs_perror(fp->get_filename(fp),
+						    "skipping padding", ret);
+					goto fail;
+				}
 			}
 			continue;
 		case TAR_TYPE_PAX:
